@@ -3,7 +3,7 @@
    started in earlier rows, nullable symbols advanced at prediction time) against
    derivations over lexeme sequences; empty productions, left / right / mutual
    recursion and ambiguity are all covered by the quantification over grammars. *)
-From LLG Require Import Base Regex Lexer Earley EarleyAgenda EarleyProofs.
+From LLG Require Import Base Regex Lexer Earley EarleyAgenda EarleyProofs Params Param ParamProofs.
 
 Theorem C05_accepts_only_derivable : forall g sp ls,
   wf_grammar g -> earley_accepts g sp ls = true -> lderives g (NT (g_start g)) ls.
@@ -45,3 +45,46 @@ Example C05_example :
   let g := mk_grammar [[[NT 1; NT 0; TM 1]; []]; [[TM 0]; []]; [[NT 0]]] 2 in
   map (earley_accepts g []) [[]; [0; 1]; [1]; [0; 0; 1; 1]; [0]; [1; 0]] = [true; true; true; true; false; false].
 Proof. vm_compute. reflexivity. Qed.
+
+(* ---------- parametric rules (coq/Param.v) ---------- *)
+(* incr([x:y]) is a saturating increment of its own field: the field goes up by one unless it is all
+   ones; nothing below bit x or from bit y upwards changes, and the 64-bit value does not wrap *)
+Theorem C05_param_incr_field : forall r p, pref_ok r -> (p < W)%N ->
+  pfield r (pexpr_eval (EIncr r) p) = N.min (pfield r p + 1) (pones r).
+Proof. exact incr_field. Qed.
+Print Assumptions C05_param_incr_field.
+
+Theorem C05_param_incr_other_bits : forall r p, pref_ok r -> (p < W)%N ->
+  (pexpr_eval (EIncr r) p mod 2 ^ px r = p mod 2 ^ px r /\
+   pexpr_eval (EIncr r) p / 2 ^ py r = p / 2 ^ py r /\
+   pexpr_eval (EIncr r) p < W)%N.
+Proof. exact incr_other_bits. Qed.
+Print Assumptions C05_param_incr_other_bits.
+
+Theorem C05_param_decr_field : forall r p, pref_ok r -> (p < W)%N ->
+  pfield r (pexpr_eval (EDecr r) p) = (pfield r p - 1)%N.
+Proof. exact decr_field. Qed.
+Print Assumptions C05_param_decr_field.
+
+Theorem C05_param_decr_other_bits : forall r p, pref_ok r -> (p < W)%N ->
+  (pexpr_eval (EDecr r) p mod 2 ^ px r = p mod 2 ^ px r /\
+   pexpr_eval (EDecr r) p / 2 ^ py r = p / 2 ^ py r /\
+   pexpr_eval (EDecr r) p < W)%N.
+Proof. exact decr_other_bits. Qed.
+Print Assumptions C05_param_decr_other_bits.
+
+(* counters kept in different bit ranges of one parameter do not disturb one another *)
+Theorem C05_param_other_field_untouched : forall r r' p, pref_ok r -> pref_ok r' -> (p < W)%N ->
+  (py r' <= px r \/ py r <= px r')%N ->
+  pfield r' (pexpr_eval (EIncr r) p) = pfield r' p /\ pfield r' (pexpr_eval (EDecr r) p) = pfield r' p.
+Proof. exact incr_decr_other_field. Qed.
+Print Assumptions C05_param_other_field_untouched.
+
+(* the disjunctive normal form by which the conditions for deriving the empty string are combined
+   evaluates like the condition (or its negation) for every parameter value; the treatment of the
+   constant `true` under a negation is read from earley/grammar.rs (NOT_TRUE_IS_FALSE): for the
+   other variant the statement is false (ParamProofs.dnf_true_under_negation_refuted) *)
+Theorem C05_param_condition_dnf_exact : forall c neg p,
+  dnf_eval (dnf NOT_TRUE_IS_FALSE c neg) p = xorb neg (pcond_eval c p).
+Proof. exact dnf_exact. Qed.
+Print Assumptions C05_param_condition_dnf_exact.
